@@ -296,6 +296,224 @@ NONCONTIGUOUS = '''statechart:
               - name: b2
 '''
 
+NUMERIC_REGIONS = '''statechart:
+  name: region names with numbers of different lengths (string order is not numeric order)
+''' + PRE + '''  root state:
+    name: root
+    initial: idle
+    states:
+      - name: idle
+        transitions:
+          - target: pool
+            event: e0
+          - target: w9b
+            event: e1
+      - name: pool
+        transitions:
+          - target: idle
+            event: e2
+        parallel states:
+          - name: worker2
+            initial: w2a
+            on entry: x = x * 3 + 2
+            on exit: y = y * 3 + 2
+            states:
+              - name: w2a
+                on entry: x = x * 5 + 1
+                transitions:
+                  - target: w2b
+                    event: f
+                    action: x = x * 7 + 2
+              - name: w2b
+          - name: worker10
+            initial: w10a
+            on entry: x = x * 3 + 10
+            on exit: y = y * 3 + 10
+            states:
+              - name: w10a
+                on entry: x = x * 5 + 2
+                transitions:
+                  - target: w10b
+                    event: f
+                    action: x = x * 7 + 10
+              - name: w10b
+          - name: worker9
+            initial: w9a
+            on entry: x = x * 3 + 9
+            on exit: y = y * 3 + 9
+            states:
+              - name: w9a
+                on entry: x = x * 5 + 3
+                transitions:
+                  - target: w9b
+                    event: f
+                    action: x = x * 7 + 9
+              - name: w9b
+                on entry: x = x * 5 + 4
+          - name: Worker1
+            initial: W1
+            on entry: x = x * 3 + 1
+            states:
+              - name: W1
+'''
+
+DEEP_HISTORY_IN_REGION = '''statechart:
+  name: a deep history state inside one region of an orthogonal state
+''' + PRE + '''  root state:
+    name: root
+    initial: P
+    states:
+      - name: out
+        transitions:
+          - target: P
+            event: e1
+      - name: P
+        transitions:
+          - target: out
+            event: e0
+        parallel states:
+          - name: R1
+            initial: c0
+            states:
+              - name: c0
+                transitions:
+                  - target: K
+                    event: f
+                  - target: hd
+                    event: h
+                  - target: hs
+                    event: s
+              - name: K
+                initial: k1
+                transitions:
+                  - target: c0
+                    event: back
+                states:
+                  - name: hd
+                    type: deep history
+                    memory: k1
+                  - name: hs
+                    type: shallow history
+                    memory: k1
+                  - name: k1
+                    transitions:
+                      - target: k2
+                        event: f
+                  - name: k2
+                    initial: k2a
+                    states:
+                      - name: k2a
+                        on entry: x = x + 1
+          - name: R2
+            initial: A
+            states:
+              - name: A
+                initial: a1
+                states:
+                  - name: a1
+                    on entry: y = y + 1
+                    transitions:
+                      - target: a2
+                        event: g
+                  - name: a2
+                    on entry: y = y + 10
+                    transitions:
+                      - target: a1
+                        event: g
+          - name: R0
+            initial: B1
+            states:
+              - name: B1
+                transitions:
+                  - target: B2
+                    event: g
+              - name: B2
+'''
+
+SUBSTRING_NAMES = '''statechart:
+  name: state names that are substrings of the names of the states around them
+''' + PRE + '''  root state:
+    name: root
+    initial: player
+    states:
+      - name: play
+        transitions:
+          - target: player
+            event: e0
+      - name: player
+        parallel states:
+          - name: player audio
+            initial: audio
+            states:
+              - name: audio
+                on exit: x = x + 1
+                transitions:
+                  - target: player
+                    event: e1
+                    action: y = y + 1
+                  - target: play
+                    event: e2
+                  - target: aud
+                    event: f
+              - name: aud
+                transitions:
+                  - target: player audio
+                    event: e1
+                  - target: audio
+                    event: f
+          - name: player video
+            initial: video
+            states:
+              - name: video
+                on exit: x = x + 10
+                transitions:
+                  - target: vid
+                    event: e1
+                  - target: vid
+                    event: e2
+                    guard: (g >> 0) & 1 == 1
+              - name: vid
+                transitions:
+                  - target: video
+                    event: e1
+'''
+
+NONDET_AND_CONFLICT = '''statechart:
+  name: a non-deterministic choice in one region and a conflicting transition in another, enabled by the same event
+''' + PRE + '''  root state:
+    name: root
+    initial: P
+    states:
+      - name: out
+      - name: P
+        parallel states:
+%(regions)s
+'''
+
+REGION_A = '''          - name: A
+            initial: a1
+            states:
+              - name: a1
+                transitions:
+                  - target: a2
+                    event: e
+                    guard: (g >> 0) & 1 == 1
+                  - target: a3
+                    event: e
+                    guard: (g >> 1) & 1 == 1
+              - name: a2
+              - name: a3
+'''
+REGION_B = '''          - name: B
+            initial: b1
+            states:
+              - name: b1
+                transitions:
+                  - target: out
+                    event: e
+                    guard: (g >> 2) & 1 == 1
+'''
+
 
 def deep_chain_yaml(depth=12):
     """root > line > {idle, s1 ... nested `depth` levels (level2..), H* deep history, h shallow history}; names like s1 / s10
@@ -347,6 +565,20 @@ def entries():
                 [('exec',), q('reset'), ('exec',), q('reset'), ('exec',), ('bits', 4094), q('reset'), ('exec',), q('reset'), ('exec',)]))
     out.append(('shared_code_text', SHARED_TEXT, None,
                 [('exec',), q('e0'), ('exec',), q('e2'), ('exec',), q('e1'), ('exec',), q('e0'), ('exec',), q('e2'), ('exec',), ('exec',)]))
+
+    out.append(('numeric_region_names', NUMERIC_REGIONS, None,
+                [('exec',), q('e0'), ('exec',), q('f'), ('exec',), q('e2'), ('exec',), q('e1'), ('exec',), q('f'), ('exec',), q('e2'), ('exec',)]))
+    out.append(('deep_history_in_region', DEEP_HISTORY_IN_REGION, None,
+                [('exec',), q('f'), ('exec',), q('f'), ('exec',), q('e0'), ('exec',), q('e1'), ('exec',), q('g'), ('exec',), q('h'), ('exec',),
+                 q('back'), ('exec',), q('s'), ('exec',), q('e0'), ('exec',), q('e1'), ('exec',), q('g'), ('exec',), q('s'), ('exec',), ('exec',)]))
+
+    out.append(('substring_names', SUBSTRING_NAMES, None,
+                [('exec',), q('f'), ('exec',), q('e1'), ('exec',), q('f'), ('exec',), q('e1'), ('exec',), ('bits', 4094), q('e2'), ('exec',),
+                 q('e0'), ('exec',), ('bits', 4095), q('e1'), ('exec',), ('exec',)]))
+    for nm, regs in (('ab', REGION_A + REGION_B), ('ba', REGION_B + REGION_A)):
+        out.append(('nondet_and_conflict_' + nm, NONDET_AND_CONFLICT % dict(regions=regs.rstrip('\n')), None,
+                    [('exec',), ('bits', 4095), q('e'), ('exec',), ('bits', 4094), q('e'), ('exec',), ('bits', 4091), q('e'), ('exec',),
+                     ('bits', 4092), q('e'), ('exec',), ('bits', 4088), q('e'), ('exec',), ('exec',)]))
 
     def add_noncontiguous(sc):
         from sismic.model import Transition
